@@ -3,6 +3,12 @@ import json
 import os
 
 try:
+    from crosshair import realize
+except Exception:
+    def realize(x):
+        return x
+
+try:
     from crosshair import NoTracing
 except Exception:  # plain replay interpreter without crosshair on the path
     class NoTracing(object):
